@@ -86,13 +86,23 @@ class Ctx:
             else:
                 new_viol.append(v)
         if new_viol:
+            # keep at most 3 witnesses per key, so that every distinct failure is visible in the replay file
+            per_key, kept = {}, []
+            for v in new_viol:
+                per_key[v["key"]] = per_key.get(v["key"], 0) + 1
+                if per_key[v["key"]] <= 3:
+                    kept.append(v)
+            new_viol = kept
             path = os.path.join(replay_dir, "%s_violation.json" % self.pid)
             with open(path, "w") as f:
-                json.dump({"property": self.pid, "kind": "failing-input", "violations": new_viol[:20],
+                json.dump({"property": self.pid, "kind": "failing-input", "violations": new_viol[:60],
                            "broken": self.broken[:10]}, f, indent=1, default=str)
             lines.append("VIOLATION property=%s replay=%s" % (self.pid, path))
-            for v in new_viol[:5]:
-                lines.append("  witness: %s :: %s" % (v["key"], v["what"]))
+            shown = set()
+            for v in new_viol:
+                if v["key"] not in shown and len(shown) < 12:
+                    shown.add(v["key"])
+                    lines.append("  witness: %s :: %s" % (v["key"], v["what"][:300]))
             rc = 1
         elif self.broken:
             path = os.path.join(replay_dir, "%s_unproved.json" % self.pid)
